@@ -42,6 +42,7 @@ def main():
     shutil.rmtree(wt, ignore_errors=True)
     subprocess.run(["git", "-C", "/repo", "worktree", "add", "-q", wt, "HEAD"], check=True)
     subprocess.run(["git", "-C", wt, "apply", os.path.join(sd, "patch.diff")], check=True)
+    shutil.copy("/repo/Cargo.lock", os.path.join(wt, "Cargo.lock"))  # untracked in the repository
     broot = os.path.join(VERIF, "build", "mut", name)
     shutil.rmtree(broot, ignore_errors=True)
     os.makedirs(broot)
@@ -75,7 +76,7 @@ def main():
         shutil.rmtree(wt, ignore_errors=True)
         shutil.rmtree(broot, ignore_errors=True)
     meta.setdefault("my_checks", {}).update(res)
-    meta["detected"] = any(v["exit"] == 1 for v in meta["my_checks"].values())
+    meta["detected"] = any(v["exit"] == 1 and v["violations"] for v in meta["my_checks"].values())
     json.dump(meta, open(os.path.join(sd, "meta.json"), "w"), indent=1)
 
 
